@@ -4,6 +4,7 @@ import (
 	"errors"
 	"fmt"
 	"log"
+	"math"
 	"os"
 	"path/filepath"
 	"sort"
@@ -206,8 +207,10 @@ func (db *DB) replayAndSetupWriteAheadLog() error {
 	}
 
 	walOpts, err := wal.NewWriteAheadLogOptions(wal.BasePath(walBasePath),
-		// we do manual rotation in lockstep with the memstore flushes, thus just set this super high to not trigger
-		wal.MaximumWalFileSizeBytes(db.memstoreMaxSize*100),
+		// we do manual rotation in lockstep with the memstore flushes, the log must never rotate on its own: a flush removes
+		// only the file its rotation closed, a file from a size-triggered rotation in between would be replayed by the next
+		// Open on top of the newer tables
+		wal.MaximumWalFileSizeBytes(math.MaxUint64),
 		wal.WriterFactory(func(path string) (recordio.WriterI, error) {
 			return recordio.NewFileWriter(append(writerOpts, recordio.Path(path))...)
 		}),
